@@ -118,3 +118,19 @@ def brief(e):
 
 def world_key(b):
     return json.dumps([b["w"]["nA"], b["w"]["nH"], b["w"]["budget"]])
+
+
+def all_behaviours(ck, module, cfg, files, timeout=900):
+    """Exhaustive (BFS) run of a Gen spec: every behaviour its Emit invariant prints."""
+    r = ck.tlc(module, cfg, files=files, timeout=timeout, deadlock=False, count=False)
+    if r.kind != "ok":
+        raise vkit.Infra("exhaustive generation %s/%s ended with %s\n%s" % (module, cfg, r.kind, vkit.tail(r.out, 3000)))
+    beh = []
+    for ln in r.out.splitlines():
+        if ln.startswith('<<"BEH", '):
+            t = ln[len('<<"BEH", '):].rstrip()
+            if t.endswith(">>"):
+                t = t[:-2]
+            beh.append(json.loads(json.loads(t)))
+    ck.log("TLC exhaustive %s/%s: %d behaviours, %d states in %.1fs" % (module, cfg, len(beh), r.distinct, r.wall))
+    return beh
